@@ -261,7 +261,8 @@ def gen_tree(rng, sp, depth, S='S'):
     if depth <= 0:
         return gen_leaf(rng, sp, S)
     rule = rng.choice(['rmul', 'rmul', 'mulr', 'mulr', 'left', 'right', 'rvec', 'sum', 'ssum', 'ssub',
-                       'transl', 'transl', 'qp', 'qp', 'qp0', 'infconv', 'defconj', 'bregman', 'leaf', 'mul0'])
+                       'transl', 'transl', 'qp', 'qp', 'qp0', 'infconv', 'defconj', 'bregman', 'leaf', 'mul0',
+                       'reflect', 'reflect'])
     if rule == 'leaf':
         return gen_leaf(rng, sp, S)
     f = gen_tree(rng, sp, depth - 1, S)
@@ -277,6 +278,13 @@ def gen_tree(rng, sp, depth, S='S'):
         if not np.isfinite(f0):
             return f
         return Node(f.obj * 0.0, '(cMul0 %s %s)' % (C.qs(sp.w), f.coq), '(%s * 0.0)' % f.py, True)
+    if rule == 'reflect':
+        # right multiplication by a NEGATIVE scalar (reflection): convex, and the proximal is -prox(-x)-like
+        s = rng.choice([-1.0, -1.0, -1.0, -2.0, -0.5])
+        if rng.random() < 0.5:
+            return Node(f.obj * s, '(cMulR %s %s)' % (f.coq, C.q(s)), '(%s * %r)' % (f.py, s), True)
+        return Node(FF.FunctionalRightScalarMult(f.obj, s), '(cRight %s %s)' % (C.q(s), f.coq),
+                    'FF.FunctionalRightScalarMult(%s, %r)' % (f.py, s), True)
     if rule == 'mulr':
         s = _scalar(rng, bad=0.05)
         if s == 0:
@@ -622,6 +630,10 @@ def chk_biconj(f, x):
         a, b = float(f(x)), float(fcc(x))
     except _SKIP:
         return None, 'not evaluable'
+    except ValueError as e:
+        if 'nonpositive' in str(e):      # reflection of a functional whose conjugate is flagged linear (clause B)
+            return None, 'conjugate of a negatively scaled functional'
+        raise
     if a == np.inf or b == np.inf:
         return bool(a == b), 'f(x)=%r f**(x)=%r' % (a, b)
     return bool(abs(a - b) <= 1e-8 * _scale(a, b)), 'f(x)=%r f**(x)=%r' % (a, b)
@@ -660,12 +672,81 @@ def chk_moreau(f, x, s):
             res = x.space.element([pi + si * qi - xi for pi, qi, xi, si in zip(p, q, x, s)])
     except _SKIP:
         return None, 'no proximal pair'
+    except ValueError as e:
+        if 'negative value' in str(e) or 'nonpositive' in str(e):   # reflection of a functional with flagged-linear conjugate
+            return None, 'the conjugate is a negatively scaled functional: no proximal'
+        raise
     err = float(np.max(np.abs(_flatten(res)))) if x.space.size else 0.0
     nx = float(np.max(np.abs(_flatten(x)))) if x.space.size else 0.0
     return bool(err <= 1e-8 * (1 + nx)), 'max|p + s q - x| = %r' % err
 
 
-CHECKS = {'fy': lambda f, x, y, s: chk_fy(f, x, y), 'grad-eq': lambda f, x, y, s: chk_grad_eq(f, x),
+def chk_prox_point(f, x, s):
+    """p = prox_{s f}(x) minimises f(z) + |z - x|^2 / (2 s):  (x - p)/s is a subgradient at p, i.e.
+    f(p) + f*((x - p)/s) = <p, (x - p)/s>  (when f* can be evaluated), and the objective at p is not
+    larger than at x, at -prox(-x)-type reflections and at small coordinate perturbations of p."""
+    if not np.isscalar(s):
+        return None, 'scalar steps only'
+    try:
+        p = f.proximal(s)(x)
+        fp = float(f(p))
+    except _SKIP:
+        return None, 'no proximal / value'
+    if not np.isfinite(fp):
+        # projections land on the boundary of the set up to rounding (C07 finding indicator-l1-ball-rounding-outside):
+        # move the point inside by 1e-9 and continue with that point
+        try:
+            p2 = p * (1 - 1e-9)
+            fp2 = float(f(p2))
+        except Exception:  # noqa
+            fp2 = fp
+        if not np.isfinite(fp2):
+            if 'IndicatorZero' in repr(f):
+                return None, 'f(prox) = inf: exact-zero test of IndicatorZero after rounded arithmetic'
+            return False, 'f(prox) = %r' % fp
+        p, fp = p2, fp2
+
+    def obj(z):
+        return float(f(z)) + float((z - x).inner(z - x)) / (2.0 * s)
+    Fp = obj(p)
+    pf = _flatten(p)
+    h = 1e-3 * (1.0 + float(np.max(np.abs(pf))) if pf.size else 1.0)
+    cands = [x, -p, p * 0.5, p + (x - p) * 0.5]
+    for i in range(pf.size):
+        for sgn in (1.0, -1.0):
+            e = np.zeros(pf.size)
+            e[i] = sgn * h
+            cands.append(p + _unflatten(p.space, e))
+    for z in cands:
+        Fz = obj(z)
+        if Fz == Fz and Fz < Fp - 1e-9 * _scale(Fp, Fz):
+            return False, 'objective %r at a competitor < %r at the proximal point' % (Fz, Fp)
+    try:
+        fc = f.convex_conj
+        y = (x - p) / s
+        b = float(fc(y))
+    except _SKIP:
+        return True, 'minimisation checked; f* not evaluable'
+    if b == np.inf:
+        # rounding guard as in chk_grad_eq: (x - p)/s sits on the boundary of dom f* for norms
+        yf = _flatten(y)
+        sc = 1e-9 * (1.0 + float(np.max(np.abs(yf))) if yf.size else 1.0)
+        vals = []
+        for c in [y * (1 - 1e-9), y * (1 + 1e-9)] + [y + _unflatten(y.space, sgn * sc * np.eye(yf.size)[i])
+                                                       for i in range(yf.size) for sgn in (1.0, -1.0)]:
+            try:
+                v = float(fc(c))
+                if np.isfinite(v):
+                    vals.append(v)
+            except Exception:  # noqa
+                pass
+        if vals:
+            b = min(vals, key=lambda v: abs(fp + v - float(p.inner(y))))
+    r = float(p.inner(y))
+    return bool(abs(fp + b - r) <= 1e-7 * _scale(fp, b, r)), 'f(p)=%r f*((x-p)/s)=%r <p,(x-p)/s>=%r' % (fp, b, r)
+
+
+CHECKS = {'prox-point': lambda f, x, y, s: chk_prox_point(f, x, s), 'fy': lambda f, x, y, s: chk_fy(f, x, y), 'grad-eq': lambda f, x, y, s: chk_grad_eq(f, x),
           'biconj': lambda f, x, y, s: chk_biconj(f, x), 'moreau': lambda f, x, y, s: chk_moreau(f, x, s)}
 
 
@@ -673,6 +754,12 @@ def run_check(name, f, x, y, s):
     """-> (ok, detail); an unexpected exception counts as a failure of the property."""
     try:
         ok, detail = CHECKS[name](f, x, y, s)
+    except ValueError as e:
+        # the library refuses conjugates / proximals of negatively LEFT-scaled functionals (a reflection `f * s`,
+        # s < 0, of a functional flagged linear builds one): nothing to evaluate
+        if 'nonpositive values' in str(e) or 'scaled with a negative value' in str(e):
+            return True, 'library refuses: ' + str(e)[:80]
+        return False, 'raised ValueError: %s' % str(e)[:200]
     except Exception as e:  # noqa
         return False, 'raised %s: %s' % (type(e).__name__, str(e)[:200])
     return (True if ok is None else ok), detail
@@ -702,6 +789,15 @@ def _topclass(f):
     return type(f).__name__
 
 
+def _c07_weighted_linf(py, w):
+    """LpNorm(inf) / IndicatorLpUnitBall(1) on a space with weights != 1: their proximals are the unweighted
+    l1 projections (open C07 findings linfty-weighted-space, indicator-l1-ball-weighted-space); the Moreau pair is
+    mutually consistent (checked), but neither is a minimiser, so the prox-point check is left to C07."""
+    if all(v == 1.0 for v in w):
+        return False
+    return ('np.inf)' in py and 'LpNorm' in py) or ', 1)' in py and 'IndicatorLpUnitBall' in py
+
+
 def tree_probes(rng, tier, out):
     n = 150 if tier == 'quick' else 900
     maxd = 3 if tier == 'quick' else 4
@@ -716,7 +812,9 @@ def tree_probes(rng, tier, out):
             x, y, sigma = gen_points(rng, sp)
             setup = 'S = %s\nf = %s\nx = %s\ny = %s' % (sp.ctor, node.py, pyelem(sp, x), pyelem(sp, y))
             X, Y = sp.elem(x), sp.elem(y)
-            for check in ('fy', 'grad-eq', 'biconj', 'moreau'):
+            for check in ('fy', 'grad-eq', 'biconj', 'moreau', 'prox-point'):
+                if check == 'prox-point' and _c07_weighted_linf(node.py, sp.w):
+                    continue
                 _probe(out, check, '%s:%s:%s' % (check, _topclass(node.obj), sp.kind),
                        '%s for %s on %s' % (check, node.py, sp.ctor), setup, node.obj, X, Y, sigma)
     finally:
@@ -783,7 +881,7 @@ def class_probes(rng, tier, out):
                 _probe(out, check, key or '%s:%s:%s' % (check, tag, kind), '%s for %s on %s' % (check, fsrc, sctor),
                        setup, loc['f'], loc['x'], loc['y'], s)
 
-    allc = ('fy', 'grad-eq', 'biconj', 'moreau')
+    allc = ('fy', 'grad-eq', 'biconj', 'moreau', 'prox-point')
     for kind, sctor in spaces:
         run('KL', kind, sctor, 'F.KullbackLeibler(S)', allc, xr=(0.125, 3), yr=(-2, 0.875))
         run('KL-prior', kind, sctor, 'F.KullbackLeibler(S, prior=S.element([0.5, 1.0, 2.0, 1.5][:S.size]))' if 'discr2' not in kind
@@ -795,8 +893,9 @@ def class_probes(rng, tier, out):
         for p in (1.5, 3.0, 4.0):
             run('LpNorm-%s' % p, kind, sctor, 'F.LpNorm(S, %r)' % p, ('fy', 'biconj'), yr=(-0.6, 0.6))
             run('LpBall-%s' % p, kind, sctor, 'F.IndicatorLpUnitBall(S, %r)' % p, ('fy', 'biconj'), xr=(-0.6, 0.6))
-        run('Linf', kind, sctor, 'F.LpNorm(S, np.inf)', allc)
-        run('L1ball', kind, sctor, 'F.IndicatorLpUnitBall(S, 1)', allc, xr=(-1, 1))
+        lc = allc if kind == 'rn' else ('fy', 'grad-eq', 'biconj', 'moreau')     # weighted: open C07 findings
+        run('Linf', kind, sctor, 'F.LpNorm(S, np.inf)', lc)
+        run('L1ball', kind, sctor, 'F.IndicatorLpUnitBall(S, 1)', lc, xr=(-1, 1))
         run('Box', kind, sctor, 'F.IndicatorBox(S, -1, 2)', ('moreau',))
         run('Nonneg', kind, sctor, 'F.IndicatorNonnegativity(S)', ('moreau',))
         run('Huber', kind, sctor, 'F.Huber(S, 0.75)', allc,
